@@ -151,6 +151,10 @@ type ParP struct {
 // ProbeInfo describes one rt.Arg probe of a program, in source order.
 type ProbeInfo struct {
 	What string `json:"what"`
+	// Next: the probe is written rt.ArgNext(h, expr), without its number, so that
+	// several arguments can be textually identical; the n-th such probe to be
+	// evaluated reports as the n-th one in source order.
+	Next bool `json:"next,omitempty"`
 }
 
 // Prog is one generated program.
